@@ -61,6 +61,11 @@ def world(env):
     T = Type("T")
     terms[8] = m.And(m.Equals(m.Symbol("k3", T), m.Symbol("k3", T)), m.Or(p, m.LE(x, y)))
     terms[9] = m.Or(m.Not(m.Equals(m.Symbol("pe", Pair(T, T)), m.Symbol("pe", Pair(T, T)))), m.Not(q))
+    # an uninterpreted FUNCTION symbol shared by two assertions (declared once while in scope, like any symbol)
+    from pysmt.typing import FunctionType
+    fsym = m.Symbol("fn", FunctionType(INT, [INT]))
+    terms[10] = m.Equals(m.Function(fsym, [x]), y)
+    terms[11] = m.Or(m.LE(m.Function(fsym, [y]), x), p)
     m0 = {p: m.TRUE(), q: m.TRUE(), x: m.Int(1), y: m.Int(2), b: m.BV(2, 2)}
     return terms, m0, [p, q, x, y, b]
 
@@ -212,6 +217,7 @@ def run(ck):
     sort_hists = [[A(6)], [A(7)], [A(6), A(7), SOLVE], [A(7), A(6), A(7)], [PU(1), A(7), PO(1), A(7), A(6)],
                   [A(7), PU(2), A(6), PO(1), A(6), SOLVE], [PU(1), A(6), PU(1), A(7), PO(2), A(7), A(6)],
                   [A(1), PU(1), A(7), SOLVE, PO(1), A(6), {"c": "reset", "x": 0, "n": 0, "id": ""}, A(7), A(6)],
+                  [A(10), A(11)], [A(10), SOLVE, A(11), SOLVE, A(10)], [PU(1), A(10), PO(1), A(11), A(10)], [A(11), PU(2), A(10), PO(1), A(10), PO(1), A(10)],
                   [A(8)], [A(8), SOLVE, A(9)], [A(9), A(6), SOLVE], [PU(1), A(8), PO(1), A(8), A(6)], [A(6), PU(1), A(9), A(8), PO(1), A(9)]]
     # push(0) / pop(0) are legal no-ops
     GM = {"c": "get_model", "x": 0, "n": 0, "id": ""}
